@@ -49,9 +49,22 @@ def long_text(min_len: int = 64, max_len: int = 700):
     return st.builds(lambda s, n: ((s or "<&>") * (n // max(len(s or "<&>"), 1) + 1))[:n], mixed_text(4), st.integers(min_len, max_len))
 
 
+MARKUP_TEMPLATES = [
+    "<!--%s-->", "<!---->", "<!--%s--!>", "<!DOCTYPE %s>", "<![CDATA[%s]]>", "<?%s?>", "<%s>", "</%s>", "<%s/>", "<b %s>", "<b>%s</b>",
+    "&%s;", "&#%s;", "<!%s>", "<script>%s</script>", "<style>%s</style>", "<!-- %s --><b>x</b><!-- %s -->", "{{%s}}", "${%s}", "<%%s%>",
+]
+
+
+def markup_text():
+    """texts that are, as a whole, one complete markup construct (comment, declaration, CDATA section, processing
+    instruction, tag, character reference, template marker): what a 'pass well-formed X through' shortcut would match"""
+    inner = st.one_of(st.sampled_from(["", "x", " x ", "a b", "HEAD_CONTENT", "html", "amp", "60", "x3c", "b", "script", "a-b", "-", "--", "\n"]), hot_text(3), uni_text(4))
+    return st.builds(lambda t, a: t.replace("%s", a) if "%s" in t else t, st.sampled_from(MARKUP_TEMPLATES), inner)
+
+
 def any_text():
-    """Full Unicode, metacharacter-dense; about one in twelve is long (64-700 characters)."""
-    return st.one_of(hot_text(), uni_text(), mixed_text(), hot_text(), uni_text(), mixed_text(), hot_text(), uni_text(), mixed_text(), hot_text(), mixed_text(), long_text())
+    """Full Unicode, metacharacter-dense; about one in thirteen is long (64-700 characters), one in thirteen a complete markup construct."""
+    return st.one_of(hot_text(), uni_text(), mixed_text(), hot_text(), uni_text(), mixed_text(), hot_text(), uni_text(), mixed_text(), hot_text(), mixed_text(), long_text(), markup_text())
 
 
 def safe_text(min_size: int = 0, max_size: int = 6):
